@@ -211,6 +211,16 @@ PROPS = {
             "stress": {"bin": "verifh", "run": "TestC05Stress", "kind": "plain", "race": True, "tiers": ["thorough"]},
         },
     },
+    "C14": {
+        "level": "exploration",
+        "level_text": "End-to-end: omniwitness.Main is started from a generated YAML configuration (sumdb-type and tiles-type logs served by in-process stub servers over loopback) with a real listener, polling enabled, in-memory or file-backed SQLite storage; rapid draws growth schedules over tile-boundary sizes, restarts on the same database and switches to forked histories; the served checkpoint must reach each published head fully cosigned and must stay on the witnessed history at a fork.",
+        "level_note": "Only the feeder types that can be served from a generated tree (sumdb, tiles), as the property states. Liveness is decided with a generous 60 s cap (240 poll intervals) and, for forks, after 4 further observed polls; time never yields a violation by itself on honest logs unless the cap is hit.",
+        "technique": "property-based end-to-end testing of the assembled service with stub log servers (rapid-generated schedules)",
+        "assumptions": HIST_ASSUME + ["loopback TCP is available in the sandbox"],
+        "parts": {
+            "main": {"bin": "omni", "run": "TestC14", "checks": {"quick": 5, "thorough": 160}, "shards": {"quick": 1, "thorough": 16}, "shrinktime": "60s"},
+        },
+    },
 }
 
 # properties not (yet) claimed: id -> reason
